@@ -36,6 +36,7 @@ func init() {
 			{ID: "C18.S3", Alias: "C09.R2"},
 			{ID: "C18.S4", Alias: "C08.R2"},
 			{ID: "C18.S5", Alias: "C09.R4"},
+			{ID: "C18.S6", Doc: "a control packet (or any non-invoke packet) of a stream whose invoke has not been forwarded is dropped, not waited for: unknown control packets sent by a newer peer between the metadata and the invoke do not park the reader", Alias: "C06.R3"},
 		},
 	})
 }
